@@ -24,6 +24,7 @@ func init() {
 }
 
 func runEngineZ1(p *Prog, o *obls) {
+	defer z1Methods(p, o)
 	la := p.Locks()
 	n := 0
 	for _, fn := range p.Funcs {
@@ -167,4 +168,102 @@ func runEngineZ1(p *Prog, o *obls) {
 		}
 	}
 	o.ok("Z1", "inspected", "-", fmt.Sprintf("%d function(s) that take the same mutex twice with a release in between", n))
+}
+
+// Z1 (method form) — the same split, hidden in two method calls: `jb.PopAtSequence(jb.PlayoutHead())` reads the head in
+// one critical section of the buffer's mutex (inside the getter) and acts on it in another (inside the popping
+// method). For every call of a method that takes its receiver's mutex and writes through its receiver: no argument
+// derives from the result of another method of the same receiver that takes the same mutex — unless the caller itself
+// holds a lock across both calls.
+func z1Methods(p *Prog, o *obls) {
+	la := p.Locks()
+	// the mutex (lock id) a method takes on its own receiver, "" if none
+	takes := map[*ssa.Function]string{}
+	lockOf := func(m *ssa.Function) string {
+		if v, ok := takes[m]; ok {
+			return v
+		}
+		takes[m] = ""
+		if m == nil || m.Blocks == nil || m.Signature.Recv() == nil || len(m.Params) == 0 {
+			return ""
+		}
+		instrsOf(m, func(in ssa.Instruction) {
+			var cc *ssa.CallCommon
+			switch x := in.(type) {
+			case *ssa.Call:
+				cc = &x.Call
+			case *ssa.Defer:
+				return
+			}
+			if cc == nil {
+				return
+			}
+			if op, ok := lockOpOf(cc); ok && (op.kind == "Lock" || op.kind == "RLock") && p.origin(addrRoot(op.addr)) == ssa.Value(m.Params[0]) {
+				takes[m] = op.id
+			}
+		})
+		return takes[m]
+	}
+	vm := map[*ssa.Function]int{}
+	n := 0
+	for _, fn := range p.Funcs {
+		if fn.Blocks == nil || !p.InUniverse(fn) {
+			continue
+		}
+		var bad []string
+		sites := 0
+		instrsOf(fn, func(in ssa.Instruction) {
+			c2, ok := in.(*ssa.Call)
+			if !ok || len(c2.Call.Args) < 2 {
+				return
+			}
+			m2 := c2.Call.StaticCallee()
+			if m2 == nil || !p.InUniverse(m2) {
+				return
+			}
+			id2 := lockOf(m2)
+			if id2 == "" || !mutatesReceiver(p, m2, 0, vm) {
+				return
+			}
+			recv := p.pureKey(c2.Call.Args[0])
+			for _, a := range c2.Call.Args[1:] {
+				var src *ssa.Call
+				p.backwardReaches(a, func(v ssa.Value) bool {
+					c1, ok := v.(*ssa.Call)
+					if !ok || c1 == c2 || len(c1.Call.Args) == 0 {
+						return false
+					}
+					m1 := c1.Call.StaticCallee()
+					if m1 == nil || m1 == m2 && false || lockOf(m1) != id2 || p.pureKey(c1.Call.Args[0]) != recv {
+						return false
+					}
+					src = c1
+					return true
+				})
+				if src == nil {
+					continue
+				}
+				sites++
+				// the caller holds a lock of its own across both calls: one critical section as far as its users go
+				if li := la.info[fn]; li != nil {
+					if len(li.before[src]) > 0 && len(li.before[c2]) > 0 {
+						continue
+					}
+				}
+				bad = append(bad, fmt.Sprintf("%s at %s is given what %s returned at %s: read in one critical section of %s, acted on in the next", shortCallee(funcKey(m2)), p.instrPos(c2), shortCallee(funcKey(src.Call.StaticCallee())), p.instrPos(src), id2))
+			}
+		})
+		if sites == 0 {
+			continue
+		}
+		n++
+		key := funcKey(fn) + ":read-then-act"
+		if len(bad) > 0 {
+			sort.Strings(bad)
+			o.bad("Z1", key, p.Pos(fn.Pos()), strings.Join(dedupe(bad), "; ")+": whatever another goroutine does between the two (a SetPlayoutHead, a second Pop) is overwritten or acted on twice")
+		} else {
+			o.ok("Z1", key, p.Pos(fn.Pos()), fmt.Sprintf("%d call(s) that act on what a locked getter of the same object returned, each under a lock the caller holds across both", sites))
+		}
+	}
+	o.ok("Z1", "methods-inspected", "-", fmt.Sprintf("%d function(s) that hand a locked getter's result to a locked mutator of the same object", n))
 }
